@@ -123,9 +123,15 @@ def run(ck, replay=None):
     grid = darsia.Grid((3, 3), [1.0, 0.5])
     nf, nc = int(grid.num_faces), int(grid.num_cells)
     fws = {1: np.array([10 ** rng.uniform(-1, 1) for _ in range(nf)]), 2: np.array([10 ** rng.uniform(-1, 1) for _ in range(nf)])}
-    sel = hists if not quick else rng.sample(hists, min(len(hists), 25))
-    for hi, hist in enumerate(sel):
-        form, backend = rng.choice([("pressure", "direct"), ("flux_reduced", "direct"), ("full", "direct"), ("pressure", "amg")])
+    # every formulation / back-end with every history of at most two solves (the shortest ones that separate "set up once,
+    # then reuse" from "set up twice"), plus a sample (thorough: all) of the longer histories
+    short = [h for h in hists if len(h) <= 2]
+    longer = [h for h in hists if len(h) > 2]
+    sel = []
+    for combo in combos:
+        sel += [(combo, h) for h in short]
+        sel += [(combo, h) for h in (longer if not quick else rng.sample(longer, min(len(longer), 3)))]
+    for hi, ((form, backend), hist) in enumerate(sel):
         e = {"tid": f"reuse:{hi}", "op": "reuse", "hist": hist, "errs": [], "raised": 0, "form": form, "backend": backend}
         try:
             w = make_solver(darsia, grid, form, backend)
